@@ -123,6 +123,8 @@ func init() {
 				add("k1-l0", 2, map[string]int{"k": 1, "l0": 0, "mode": 0})
 				add("k1-l3-buffered", 1, map[string]int{"k": 1, "l0": 3, "mode": 0, "buf": 2})
 				add("k1-l40-late", 0, map[string]int{"k": 1, "l0": 40, "mode": 1})
+				// three live subscriptions, the oldest ends first (index bookkeeping of the forwarder)
+				add("k3-l1,3,3-attentive", 1, map[string]int{"k": 3, "l0": 1, "l1": 3, "l2": 3, "mode": 0})
 				return ps
 			}
 			add("k2-l1,3-attentive", 2, map[string]int{"k": 2, "l0": 1, "l1": 3, "mode": 0})
@@ -137,6 +139,8 @@ func init() {
 			add("k1-l40-late", 1, map[string]int{"k": 1, "l0": 40, "mode": 1})
 			add("k1-l40-attentive", 1, map[string]int{"k": 1, "l0": 40, "mode": 0})
 			add("k2-l40,3-stalled0", 0, map[string]int{"k": 2, "l0": 40, "l1": 3, "mode": 2})
+			add("k3-l1,3,3-attentive", 2, map[string]int{"k": 3, "l0": 1, "l1": 3, "l2": 3, "mode": 0})
+			add("k3-l3,1,3-attentive", 1, map[string]int{"k": 3, "l0": 3, "l1": 1, "l2": 3, "mode": 0})
 			return ps
 		},
 		Body: streamBody,
@@ -207,7 +211,7 @@ func (sw *streamWorld) subscribe(s *vsched.Sched, i, n int, consume func() bool)
 
 func streamBody(s *vsched.Sched, p Param) {
 	k, mode := p.I("k"), p.I("mode")
-	lens := []int{p.I("l0"), p.I("l1")}
+	lens := []int{p.I("l0"), p.I("l1"), p.I("l2")}
 	sw, err := newStreamWorld(s, k, p.I("buf"), false, false)
 	if err != nil {
 		s.Violate("HARNESS: setup: %v", err)
